@@ -106,7 +106,7 @@ def _local_bits(ctx, path):
     return ctx.cache[k]
 
 
-def r2_forced_flags(ctx):
+def r2_forced_flags(ctx, cloexec_only=False):
     F = ctx.facts
     ipa, _ = shared(ctx)
     out = []
@@ -118,7 +118,7 @@ def r2_forced_flags(ctx):
     for key, t in ordinal_keys(items):
         bits = _local_bits(ctx, t.body.path)
         v = bits.arg_value(t, 2)
-        need = O_CLOEXEC | O_NOCTTY
+        need = O_CLOEXEC if cloexec_only else (O_CLOEXEC | O_NOCTTY)
         if v is not None and v.has(need):
             out.append(holds("C05.R2a", key, t.where(), "open flags must-set %#x" % v.must_set))
         else:
@@ -184,7 +184,7 @@ def r2_forced_flags(ctx):
             for a in (fin.alts if fin else []):
                 if not a.has(O_CLOEXEC):
                     bad.append("O_CLOEXEC missing (%r)" % a)
-                elif not (a.has(O_NOCTTY) or a.has(O_PATH) or a.has(O_DIRECTORY) or pathc == "."):
+                elif not cloexec_only and not (a.has(O_NOCTTY) or a.has(O_PATH) or a.has(O_DIRECTORY) or pathc == "."):
                     bad.append("neither O_NOCTTY nor O_PATH/O_DIRECTORY (%r)" % a)
             if bad:
                 out.append(violated("C05.R2d", key, t.where(), "openat2 flags at the kernel boundary: " + bad[0], bad))
